@@ -284,8 +284,8 @@ class Initiator(DataExchangeProtocol):
 
         def ATN():
             pdu_type = DEP_REQ.Attention
-            pfb = DEP_REQ.PFB(pdu_type, nad=False, did=False, pni=0)
-            return DEP_REQ(pfb, did=None, nad=None, data=None)
+            pfb = DEP_REQ.PFB(pdu_type, False, self.did is not None, 0)
+            return DEP_REQ(pfb, did=self.did, nad=None, data=None)
 
         def request_attention(self, n_retry_atn, rwt, deadline):
             req = ATN()
